@@ -483,13 +483,10 @@ def tag_state(*values: Any, name: str) -> Any:
             batch=batch_rule,  # Self-reference for nested vmaps
         )(vectorized_identity, name=params.get("name"))(*vector_args)
 
-        # Return result with appropriate batching dimensions
-        if isinstance(result, tuple):
-            # For multiple outputs, each has the same dims as inputs
-            return result, tuple(dims[0] if dims else () for _ in result)
-        else:
-            # For single output, return as tuple (JAX expects a sequence for dims_out)
-            return (result,), (dims[0] if dims else (),)
+        # The primitive is the identity: output i is input i, batched along the same
+        # axis (or not batched at all) as input i.
+        outs = result if isinstance(result, tuple) else (result,)
+        return outs, tuple(dims)
 
     result = initial_style_bind(
         state_p,
